@@ -126,12 +126,12 @@ Definition struct_ok (consts : list value) (all : list instr) (len : N) (i : ins
   (iop i = OpConstant -> iarg i < lenN consts) /\
   ((iop i = OpLookup \/ iop i = OpInc \/ iop i = OpDec) -> exists s, nthN consts (iarg i) = Some (VStr s)).
 
-Definition edge_ok (a : ann) (len : N) (e : N * N) : Prop :=
-  match ann_get a (fst e) with Some b => b <= snd e | None => len <= fst e end.
+Definition edge_ok (a : ann) (len : N) (e : N * astate) : Prop :=
+  match ann_get a (fst e) with Some b => state_le b (snd e) = true | None => len <= fst e end.
 
 Definition flow_ok (a : ann) (len : N) (i : instr) (next : option instr) : Prop :=
-  forall d, ann_get a (iip i) = Some d ->
-    pops i <= d /\ exists es, edges i next d = Some es /\ Forall (edge_ok a len) es.
+  forall st, ann_get a (iip i) = Some st ->
+    pops i <= fst st /\ exists es, edges i next st = Some es /\ Forall (edge_ok a len) es.
 
 Definition nexti (rest : list instr) : option instr := match rest with j :: _ => Some j | [] => None end.
 
@@ -159,14 +159,14 @@ Proof.
       destruct (nthN consts (iarg i)) as [[]|]; try discriminate. eexists; reflexivity. }
   split; [exact S|]. clear C1 C2 C3.
   destruct (ann_get a (iip i)) as [d|] eqn:Ha.
-  - destruct (d <? pops i) eqn:Hp; [discriminate|]. apply N.ltb_ge in Hp.
+  - destruct (fst d <? pops i) eqn:Hp; [discriminate|]. apply N.ltb_ge in Hp.
     fold (nexti rest) in H.
     destruct (edges i (nexti rest) d) as [es|] eqn:He; [|discriminate].
     match type of H with (if ?c then _ else _) = _ => destruct c eqn:Hf; [|discriminate] end.
     split; [|exact H].
     intros d' Hd'. rewrite Ha in Hd'. injection Hd' as <-. split; [exact Hp|]. exists es. split; [exact He|].
     apply Forall_forall. intros e He'. rewrite forallb_forall in Hf. specialize (Hf e He').
-    unfold edge_ok. destruct (ann_get a (fst e)); [apply N.leb_le|apply N.leb_le]; exact Hf.
+    unfold edge_ok. destruct (ann_get a (fst e)); [exact Hf|apply N.leb_le; exact Hf].
   - split; [|exact H]. intros d' Hd'. rewrite Ha in Hd'. discriminate.
 Qed.
 
@@ -200,7 +200,7 @@ Lemma verify_body_inv : forall consts isf code,
     ((is = [] /\ isf = false) \/
      (is <> [] /\
       (isf = true -> exists i, last_instr is = Some i /\ (iop i = OpReturn \/ iop i = OpJump)) /\
-      exists a, flow (S (S (4 * List.length is))) is [(0, 0)] = Some a /\
+      exists a, flow (S (S (4 * List.length is))) is [(0, (0, []))] = Some a /\
                 check consts is is (lenN code) a = VOk)).
 Proof.
   intros consts isf code H. unfold verify_body in H.
@@ -217,7 +217,7 @@ Proof.
     + intros ->. cbn [andb] in Hl. apply negb_false_iff in Hl.
       destruct (last_instr is) as [i|]; [|discriminate]. exists i. split; [reflexivity|].
       apply orb_true_iff in Hl. destruct Hl as [E|E]; apply N.eqb_eq in E; auto.
-    + destruct (flow (S (S (4 * List.length is))) is [(0, 0)]) as [a|]; [|discriminate].
+    + destruct (flow (S (S (4 * List.length is))) is [(0, (0, []))]) as [a|]; [|discriminate].
       exists a. split; [reflexivity|exact H].
 Qed.
 
@@ -323,23 +323,33 @@ Proof.
       * apply IH.
 Qed.
 
-Definition entry0 (a : ann) : Prop := ann_get a 0 = Some 0.
+Definition entry0 (a : ann) : Prop := ann_get a 0 = Some (0, []).
+
+Lemma state_le_entry : forall st, state_le (0, []) (state_meet (0, []) st) = true.
+Proof.
+  intros [n ms]. unfold state_meet, state_le. cbn [fst snd List.length].
+  destruct n; destruct ms as [|x ms]; reflexivity.
+Qed.
 
 Lemma fold_entry0 : forall es acc,
   entry0 (fst acc) ->
-  entry0 (fst (fold_left (fun (acc : ann * bool) (e : N * N) =>
+  entry0 (fst (fold_left (fun (acc : ann * bool) (e : N * astate) =>
                   let '(a0, c0) := acc in
                   match ann_get a0 (fst e) with
-                  | Some old => if snd e <? old then (ann_set a0 (fst e) (snd e), true) else (a0, c0)
+                  | Some old => if state_le old (snd e) then (a0, c0)
+                                else let nw := state_meet old (snd e) in
+                                     if state_le old nw then (a0, c0)
+                                     else (ann_set a0 (fst e) nw, true)
                   | None => (ann_set a0 (fst e) (snd e), true)
                   end) es acc)).
 Proof.
   induction es as [|e es IH]; intros [a0 c0] H; cbn [fold_left]; [exact H|].
   apply IH. cbn [fst] in *. unfold entry0 in *.
   destruct (ann_get a0 (fst e)) as [old|] eqn:G.
-  - destruct (snd e <? old) eqn:L; cbn [fst]; [|exact H].
+  - destruct (state_le old (snd e)) eqn:L; cbn [fst]; [exact H|]. cbv zeta.
+    destruct (state_le old (state_meet old (snd e))) eqn:L2; cbn [fst]; [exact H|].
     rewrite ann_get_set. destruct (N.eqb_spec (fst e) 0) as [E|E]; [|exact H].
-    rewrite E, H in G. injection G as <-. apply N.ltb_lt in L. lia.
+    rewrite E, H in G. injection G as <-. rewrite state_le_entry in L2. discriminate.
   - cbn [fst]. rewrite ann_get_set. destruct (N.eqb_spec (fst e) 0) as [E|E]; [|exact H].
     rewrite E, H in G. discriminate.
 Qed.
@@ -348,7 +358,7 @@ Lemma flow_pass_entry0 : forall is a ch, entry0 a -> entry0 (fst (flow_pass is a
 Proof.
   induction is as [|i rest IH]; intros a ch H; cbn [flow_pass]; [exact H|].
   destruct (ann_get a (iip i)) as [d|]; [|apply IH, H].
-  destruct (d <? pops i); [apply IH, H|].
+  destruct (fst d <? pops i); [apply IH, H|].
   destruct (edges i _ d) as [es|]; [|apply IH, H].
   match goal with |- context [fold_left ?f es (a, ch)] =>
     pose proof (fold_entry0 es (a, ch) H) as F; destruct (fold_left f es (a, ch)) as [a' ch'] end.
@@ -468,6 +478,78 @@ Qed.
 End NI.
 
 (* ------------------------------------------------------------------ *)
+(* the scopes of the environment: which are frames, which are loops *)
+
+Definition kinds (e : env) : list skind := map fst (scopes e).
+
+Lemma local_update_kinds : forall n v ss, map fst (local_update n v ss) = map fst ss.
+Proof.
+  intros n v. induction ss as [|[k s] ss IH]; [reflexivity|].
+  cbn [local_update]. destruct (assoc_get n s); [reflexivity|].
+  destruct (is_frame k); cbn [map fst]; [reflexivity|]. rewrite IH. reflexivity.
+Qed.
+
+Lemma kinds_env_set : forall e n v, kinds (env_set e n v) = kinds e.
+Proof.
+  intros e n v. unfold kinds, env_set. destruct (local_get n (scopes e)); cbn [scopes]; [|reflexivity].
+  apply local_update_kinds.
+Qed.
+
+Lemma kinds_env_declare : forall e n v, kinds (env_declare e n v) = kinds e.
+Proof.
+  intros e n v. unfold kinds, env_declare. destruct (scopes e) as [|[k s] ss] eqn:E; [rewrite E; reflexivity|].
+  reflexivity.
+Qed.
+
+Lemma kinds_declare2 : forall e (idx : str) n v,
+  kinds (match idx with [] => e | _ :: _ => env_declare e n v end) = kinds e.
+Proof. intros e idx n v. destruct idx; [reflexivity|apply kinds_env_declare]. Qed.
+
+Lemma kinds_env_push : forall e k, kinds (env_push e k) = SLoop k :: kinds e.
+Proof. reflexivity. Qed.
+
+Lemma kinds_env_pop : forall e e1 x K, env_pop e = Some e1 -> kinds e = x :: K -> kinds e1 = K.
+Proof.
+  intros e e1 x K H E. unfold env_pop in H. unfold kinds in *. destruct (scopes e) as [|y ss]; [discriminate|].
+  injection H as <-. cbn [map scopes] in *. congruence.
+Qed.
+
+Lemma kinds_env_mark : forall e k K, kinds e = SLoop k :: K -> env_mark e = Some k.
+Proof.
+  intros e k K E. unfold env_mark, kinds in *. destruct (scopes e) as [|[y s] ss]; [discriminate|].
+  cbn [map fst] in E. injection E as -> _. reflexivity.
+Qed.
+
+(* the loops of the running body sit on top of `base`, and have remembered at least the heights `bs` *)
+Fixpoint marks_ok (base : list skind) (bs : list N) (K : list skind) : Prop :=
+  match bs with
+  | [] => K = base
+  | b :: bs' => match K with SLoop k :: K' => b <= k /\ marks_ok base bs' K' | _ => False end
+  end.
+
+Definition over (base K : list skind) : Prop := exists ks, K = map SLoop ks ++ base.
+
+Lemma marks_ok_over : forall base bs K, marks_ok base bs K -> over base K.
+Proof.
+  intros base. induction bs as [|b bs IH]; intros K H.
+  - exists []. exact H.
+  - cbn [marks_ok] in H. destruct K as [|[|k] K']; try contradiction. destruct H as (_ & H).
+    destruct (IH _ H) as (ks & ->). exists (k :: ks). reflexivity.
+Qed.
+
+Lemma marks_ok_le : forall base bs' bs K, marks_le bs' bs = true -> marks_ok base bs K -> marks_ok base bs' K.
+Proof.
+  intros base. induction bs' as [|b' bs' IH]; intros bs K L H.
+  - destruct bs; [exact H|discriminate].
+  - destruct bs as [|b bs]; [discriminate|]. cbn [marks_le] in L. apply andb_true_iff in L. destruct L as (L1 & L2).
+    apply N.leb_le in L1. cbn [marks_ok] in *. destruct K as [|[|k] K']; try contradiction.
+    destruct H as (H1 & H2). split; [lia|eapply IH; eassumption].
+Qed.
+
+Lemma keep_bottom_len : forall k (s : list value), lenN (keep_bottom k s) = N.min (lenN s) k.
+Proof. intros k s. unfold keep_bottom, lenN. rewrite skipn_length. lia. Qed.
+
+(* ------------------------------------------------------------------ *)
 (* soundness for call-free bodies *)
 
 Lemma Forall_1 : forall {A} (P : A -> Prop) x, Forall P [x] -> P x.
@@ -478,24 +560,43 @@ Proof. intros A P x y H. inversion H as [|? ? H1 H2]. inversion H2. split; assum
 Section Sound.
 Variables (o : stdlib) (consts : list value) (funcs : list (str * ufunc)) (fns : fnmap) (obj : hostval).
 Variables (code : list N) (is : list instr) (a : ann).
+(* the scopes that were open when the body was entered *)
+Variable base : list skind.
 Hypothesis Hchain : chain code 0 is.
 Hypothesis Hcheck : check consts is is (lenN code) a = VOk.
 Hypothesis Hnocall : Forall (fun i => iop i <> OpCall) is.
 
 Definition startish (t : N) : Prop :=
   lenN code <= t \/ exists pre i rest, is = pre ++ i :: rest /\ iip i = t.
-Definition good (t n : N) : Prop :=
-  lenN code <= t \/
-  exists pre i rest d, is = pre ++ i :: rest /\ iip i = t /\ ann_get a t = Some d /\ d <= n.
-Definition mid (t : N) (s : list value) : Prop :=
+(* at t, with n values on the stack and the scopes K, the annotation holds *)
+Definition good (t n : N) (K : list skind) : Prop :=
+  (lenN code <= t /\ over base K) \/
+  exists pre i rest d bs, is = pre ++ i :: rest /\ iip i = t /\ ann_get a t = Some (d, bs) /\ d <= n /\
+                          marks_ok base bs K.
+(* an edge of the control-flow graph covers every concrete state its abstract state describes *)
+Definition egood (e : N * astate) : Prop :=
+  forall n K, fst (snd e) <= n -> marks_ok base (snd (snd e)) K -> good (fst e) n K.
+Definition mid (t : N) (s : list value) (K : list skind) : Prop :=
   exists pre j rest b s', is = pre ++ j :: rest /\ iip j = t /\ iop j = OpJumpIfFalse /\
-     s = VBool b :: s' /\ good (if b then t + 3 else iarg j) (lenN s').
-Definition Inv (t : N) (m : mstate) : Prop := good t (lenN (stk m)) \/ mid t (stk m).
+     s = VBool b :: s' /\ good (if b then t + 3 else iarg j) (lenN s') K.
+Definition Inv (t : N) (m : mstate) : Prop :=
+  good t (lenN (stk m)) (kinds (menv m)) \/ mid t (stk m) (kinds (menv m)).
 
-Lemma good_mono : forall t n n', good t n -> n <= n' -> good t n'.
+Lemma good_mono : forall t n n' K, good t n K -> n <= n' -> good t n' K.
 Proof.
-  intros t n n' [H|(pre & i & rest & d & E & Hi & Ha & Hd)] L; [left; exact H|].
-  right. exists pre, i, rest, d. repeat split; auto. lia.
+  intros t n n' K [H|(pre & i & rest & d & bs & E & Hi & Ha & Hd & Hm)] L; [left; exact H|].
+  right. exists pre, i, rest, d, bs. repeat split; auto. lia.
+Qed.
+
+Lemma good_over : forall t n K, good t n K -> over base K.
+Proof.
+  intros t n K [[_ H]|(pre & i & rest & d & bs & _ & _ & _ & _ & Hm)]; [exact H|].
+  eapply marks_ok_over. exact Hm.
+Qed.
+
+Lemma Inv_over : forall t m, Inv t m -> over base (kinds (menv m)).
+Proof.
+  intros t m [H|(pre & j & rest & b & s' & _ & _ & _ & _ & H)]; eapply good_over; exact H.
 Qed.
 
 Lemma at_chain : forall pre i rest, is = pre ++ i :: rest -> chain code (iip i) (i :: rest).
@@ -517,29 +618,33 @@ Proof.
     rewrite <- app_assoc. exact E.
 Qed.
 
-Lemma edge_good : forall t n, edge_ok a (lenN code) (t, n) -> startish t -> good t n.
+Lemma edge_good : forall e, edge_ok a (lenN code) e -> startish (fst e) -> egood e.
 Proof.
-  intros t n He Hs. unfold edge_ok in He. cbn [fst snd] in He.
-  destruct Hs as [Hs|(pre & i & rest & E & Hi)]; [left; exact Hs|].
-  destruct (ann_get a t) as [b|] eqn:Ha; [|left; exact He].
-  right. exists pre, i, rest, b. repeat split; auto.
+  intros [t [n ms]] He Hs n' K Hn Hm. unfold edge_ok in He. cbn [fst snd] in *.
+  destruct Hs as [Hs|(pre & i & rest & E & Hi)].
+  { left. split; [exact Hs|eapply marks_ok_over; exact Hm]. }
+  destruct (ann_get a t) as [[b bs]|] eqn:Ha.
+  - unfold state_le in He. cbn [fst snd] in He. apply andb_true_iff in He. destruct He as (L1 & L2).
+    apply N.leb_le in L1.
+    right. exists pre, i, rest, b, bs. repeat split; auto; [lia|eapply marks_ok_le; eassumption].
+  - left. split; [exact He|eapply marks_ok_over; exact Hm].
 Qed.
 
 Lemma op_len_jif : op_len OpJumpIfFalse = 3.
 Proof. vm_compute. reflexivity. Qed.
 
-Lemma flow_good : forall pre i rest d,
-  is = pre ++ i :: rest -> ann_get a (iip i) = Some d ->
-  pops i <= d /\ exists es, edges i (nexti rest) d = Some es /\ Forall (fun e => good (fst e) (snd e)) es.
+Lemma flow_good : forall pre i rest st,
+  is = pre ++ i :: rest -> ann_get a (iip i) = Some st ->
+  pops i <= fst st /\ exists es, edges i (nexti rest) st = Some es /\ Forall egood es.
 Proof.
-  intros pre i rest d E Ha.
+  intros pre i rest st E Ha.
   destruct (check_spec _ _ _ _ _ Hcheck pre i rest E) as (S & F).
-  destruct (F d Ha) as (Hp & es & He & Hes). split; [exact Hp|]. exists es. split; [exact He|].
+  destruct (F st Ha) as (Hp & es & He & Hes). split; [exact Hp|]. exists es. split; [exact He|].
   assert (T : Forall (fun e => startish (fst e)) es).
   { destruct S as (S1 & _ & _).
     pose proof (next_startish _ _ _ E) as Nx.
     pose proof (at_chain _ _ _ E) as C. cbn [chain] in C. destruct C as (_ & _ & _ & _ & Hl & _ & C).
-    unfold edges in He.
+    destruct st as [d ms]. unfold edges in He.
     destruct (N.eqb_spec (iop i) OpReturn) as [E1|E1]; [injection He as <-; constructor|].
     destruct (N.eqb_spec (iop i) OpJump) as [E2|E2].
     { injection He as <-. constructor; [|constructor]. cbn [fst]. right. apply start_split, S1. auto. }
@@ -547,9 +652,13 @@ Proof.
     { injection He as <-. constructor; [|constructor; [|constructor]]; cbn [fst].
       - rewrite E3, op_len_jif in Hl. rewrite <- Hl. exact Nx.
       - right. apply start_split, S1. auto. }
+    destruct (N.eqb_spec (iop i) OpIterationReset) as [E6|E6].
+    { injection He as <-. constructor; [|constructor]. cbn [fst]. exact Nx. }
     destruct (N.eqb_spec (iop i) OpIterationNext) as [E4|E4].
     { destruct rest as [|j rest']; cbn [nexti] in He; [discriminate|].
+      destruct ms as [|k ms0]; [discriminate|].
       destruct (N.eqb_spec (iop j) OpJumpIfFalse) as [E5|E5]; [|discriminate].
+      cbv zeta in He. destruct (N.min (d - 2) k =? 0); [discriminate|].
       injection He as <-.
       assert (Ej : is = (pre ++ [i]) ++ j :: rest') by (rewrite <- app_assoc; exact E).
       destruct (check_spec _ _ _ _ _ Hcheck _ j rest' Ej) as ((Sj & _ & _) & _).
@@ -558,7 +667,7 @@ Proof.
       rewrite E5, op_len_jif in Hlj. rewrite Hlj in Nj.
       constructor; [|constructor; [|constructor]]; cbn [fst]; [exact Nj|]. right. apply start_split, Sj. auto. }
     injection He as <-. constructor; [|constructor]. cbn [fst]. exact Nx. }
-  rewrite Forall_forall in *. intros [t n] Hin. cbn [fst snd].
+  rewrite Forall_forall in *. intros e Hin.
   apply edge_good; [apply (Hes _ Hin)|apply (T _ Hin)].
 Qed.
 
@@ -602,25 +711,87 @@ Ltac crunch_res :=
           end);
   cbv beta iota zeta.
 
+(* the scopes of the new environment are those the edge expects *)
+Ltac kinds_tac :=
+  cbn [menv]; rewrite ?kinds_declare2, ?kinds_env_declare, ?kinds_env_set, ?kinds_env_push;
+  cbn [marks_ok];
+  first [ assumption | split; [lens|assumption] ].
+
+Ltac use_edge G := apply G; [lens|kinds_tac].
+
 Ltac leaf :=
   lazymatch goal with
   | |- res_ok (rec code ?t ?m') =>
-      apply RCont; left; unfold push, set_stk; cbn [stk];
+      apply RCont; left; unfold push, set_stk, set_env; cbn [stk menv];
       match goal with
-      | G : good t _ |- _ => eapply good_mono; [exact G|lens]
+      | G : egood (t, _) |- _ => unfold egood in G; cbn [fst snd] in G; use_edge G
       end
   | |- res_ok (fail _ _) => unfold fail; apply RStop; ni
   | |- res_ok (_, _) => apply RStop; ni
   end.
 
-Lemma step_good : forall pre i rest d m,
-  is = pre ++ i :: rest -> ann_get a (iip i) = Some d -> d <= lenN (stk m) ->
+Lemma step_iter : forall pre i rest d bs m,
+  is = pre ++ i :: rest -> iop i = OpIterationNext -> ann_get a (iip i) = Some (d, bs) -> d <= lenN (stk m) ->
+  marks_ok base bs (kinds (menv m)) ->
   res_ok (PollProofs.instr o consts funcs fns obj rec code (iip i) m).
 Proof.
-  intros pre i rest d m E Ha Hd.
+  intros pre i rest d bs m E Ei Ha Hd Hm.
+  pose proof (at_chain _ _ _ E) as C. cbn [chain] in C. destruct C as (_ & Hlt & Hk & Hb & Hl & Hop & Hnext).
+  destruct (flow_good _ _ _ _ E Ha) as (Hp & es & He & Hg). cbn [fst] in Hp.
+  unfold PollProofs.instr. rewrite Hb. cbv beta iota zeta. rewrite <- Hl. rewrite Hop. cbv beta iota.
+  destruct i as [ip0 op arg ln]. destruct m as [st en tr po].
+  cbn [iip iop iarg ilen stk menv trace polls] in *. subst op.
+  vm_compute in Hl; subst ln.
+  cbv [edges pops pushes iip iop iarg ilen] in He, Hp; ev_in He; ev_in Hp.
+  ev_goal.
+  (* IterationNext; JumpIfFalse *)
+  destruct rest as [|j rest']; cbn [nexti] in He; [discriminate|].
+  destruct bs as [|k ms0]; [discriminate|].
+  destruct j as [jip jop jarg jlen]. cbv beta iota in He.
+  destruct (N.eqb_spec jop OpJumpIfFalse) as [Ej|Ej]; [|discriminate]. subst jop.
+  destruct (N.eqb_spec (N.min (d - 2) k) 0) as [Eb|Eb]; [discriminate|].
+  injection He as <-. apply Forall_2 in Hg. destruct Hg as [Hg Hg2].
+  cbn [chain iip] in Hnext. destruct Hnext as (Hj & _). subst jip.
+  set (j := mkI (ip0 + 1) OpJumpIfFalse jarg jlen) in *.
+  assert (Es : is = (pre ++ [mkI ip0 OpIterationNext arg 1]) ++ j :: rest')
+    by (rewrite <- app_assoc; exact E).
+  cbn [marks_ok] in Hm. destruct (kinds en) as [|[|kr] K'] eqn:EK; try contradiction.
+  destruct Hm as (Hkr & Hm).
+  destruct st as [|v1 [|v2 rest0]]; try (exfalso; lens).
+  unfold drop_residue. rewrite (kinds_env_mark _ _ _ EK).
+  pose proof (keep_bottom_len kr rest0) as KL.
+  set (bb := N.min (d - 2) k) in *.
+  assert (Hbb : bb <= lenN (keep_bottom kr rest0)).
+  { rewrite KL. unfold bb. rewrite lenN_cons, lenN_cons in Hd. lia. }
+  clearbody bb. clear KL.
+  destruct (keep_bottom kr rest0) as [|it s] eqn:Ek; [exfalso; lens|].
+  unfold egood in Hg, Hg2. cbn [fst snd] in Hg, Hg2.
+  crunch_res;
+  lazymatch goal with
+  | |- res_ok (rec code _ {| stk := VBool true :: ?s0; menv := _; trace := _; polls := _ |}) =>
+      apply RCont; right; exists (pre ++ [mkI ip0 OpIterationNext arg 1]), j, rest', true, s0;
+      cbn [stk menv]; repeat split; [exact Es|];
+      cbv beta iota; apply Hg; [lens|];
+      rewrite ?kinds_declare2, ?kinds_env_declare, EK; cbn [marks_ok]; split; assumption
+  | |- res_ok (rec code _ {| stk := VBool false :: ?s0; menv := ?e1; trace := _; polls := _ |}) =>
+      apply RCont; right; exists (pre ++ [mkI ip0 OpIterationNext arg 1]), j, rest', false, s0;
+      cbn [stk menv]; repeat split; [exact Es|];
+      cbv beta iota; apply Hg2; [lens|];
+      match goal with P : env_pop en = Some _ |- _ => rewrite (kinds_env_pop _ _ _ _ P EK) end; exact Hm
+  | _ => leaf
+  end.
+Qed.
+
+Lemma step_good : forall pre i rest d bs m,
+  is = pre ++ i :: rest -> ann_get a (iip i) = Some (d, bs) -> d <= lenN (stk m) ->
+  marks_ok base bs (kinds (menv m)) ->
+  res_ok (PollProofs.instr o consts funcs fns obj rec code (iip i) m).
+Proof.
+  intros pre i rest d bs m E Ha Hd Hm.
   pose proof (at_chain _ _ _ E) as C. cbn [chain] in C. destruct C as (_ & Hlt & Hk & Hb & Hl & Hop & Hnext).
   destruct (check_spec _ _ _ _ _ Hcheck pre i rest E) as ((S1 & S2 & S3) & _).
-  destruct (flow_good _ _ _ _ E Ha) as (Hp & es & He & Hg).
+  destruct (flow_good _ _ _ _ E Ha) as (Hp & es & He & Hg). cbn [fst] in Hp.
+  destruct (N.eq_dec (iop i) OpIterationNext) as [Ei|Ei]; [eapply step_iter; eassumption|].
   assert (Hnc : iop i <> OpCall).
   { rewrite Forall_forall in Hnocall. apply Hnocall. rewrite E. apply in_elt. }
   unfold PollProofs.instr. rewrite Hb. cbv beta iota zeta. rewrite <- Hl. rewrite Hop. cbv beta iota.
@@ -630,6 +801,7 @@ Proof.
   repeat (apply orb_true_iff in Hk; destruct Hk as [Hk|Hk]; [apply N.eqb_eq in Hk; subst op|]);
     [..|discriminate].
   all: try (exfalso; apply Hnc; reflexivity).
+  all: try (exfalso; apply Ei; reflexivity).
   all: vm_compute in Hl; subst ln.
   all: cbv [edges pops pushes iip iop iarg ilen] in He, Hp; ev_in He; ev_in Hp.
   all: ev_goal.
@@ -642,7 +814,7 @@ Proof.
   all: clear S1 S2 S3.
   all: lazymatch type of Hb with
        | _ = Some OpArray =>
-           injection He as <-; apply Forall_1 in Hg; cbv beta iota delta [fst snd] in Hg;
+           injection He as <-; apply Forall_1 in Hg;
            let el := fresh "el" in let s' := fresh "s'" in let Ep := fresh "Ep" in let L := fresh "L" in
            destruct (pop_n_ok (N.to_nat arg) st []) as (el & s' & Ep & L); [lens|];
            rewrite Ep; cbv beta iota zeta; leaf
@@ -651,49 +823,23 @@ Proof.
            remember ((arg + 1) / 2) as q eqn:Hq; clear Hq;
            remember (2 * q) as q2 eqn:Hq2;
            assert (Hq2' : N.to_nat q2 = (2 * N.to_nat q)%nat) by lia; clear Hq2;
-           injection He as <-; apply Forall_1 in Hg; cbv beta iota delta [fst snd] in Hg;
+           injection He as <-; apply Forall_1 in Hg;
            let B := fresh "B" in
            assert (B : (2 * N.to_nat q <= List.length st)%nat) by lens;
            apply (build_hash_ok o _ _ []) in B;
            destruct (build_hash o (N.to_nat q) st []) as [[ps s']|e];
            cbv beta iota zeta; [leaf|unfold fail; apply RStop; congruence]
-       | _ = Some OpIterationNext =>
-           let j := fresh "j" in let rest' := fresh "rest'" in
-           destruct rest as [|j rest']; cbn [nexti] in He; [discriminate|];
-           let Ej := fresh "Ej" in
-           match type of He with context [if ?c then _ else _] => destruct c eqn:Ej end; [|discriminate];
-           apply N.eqb_eq in Ej; change (iop j = OpJumpIfFalse) in Ej;
-           injection He as <-;
-           apply Forall_2 in Hg; cbv beta iota delta [fst snd] in Hg; destruct Hg as [Hg Hg2];
-           cbn [chain] in Hnext; destruct Hnext as (Hj & _);
-           change (good (iip j + 3) (d - 3 + 1)) in Hg; rewrite Hj in Hg;
-           change (good (iarg j) (d - 3)) in Hg2;
-           assert (Es : is = (pre ++ [mkI ip0 OpIterationNext arg 1]) ++ j :: rest')
-             by (rewrite <- app_assoc; exact E);
-           destruct st as [|v1 [|v2 [|v3 s]]];
-           try (exfalso; lens);
-           crunch_res;
-           lazymatch goal with
-           | |- res_ok (rec code _ {| stk := VBool ?b :: ?s0; menv := _; trace := _; polls := _ |}) =>
-               apply RCont; right; exists (pre ++ [mkI ip0 OpIterationNext arg 1]), j, rest', b, s0;
-               cbn [stk]; repeat split; [exact Es|exact Hj|exact Ej|];
-               cbv beta iota;
-               match goal with
-               | G : good ?t _ |- good ?t _ => eapply good_mono; [exact G|lens]
-               end
-           | _ => leaf
-           end
        | _ =>
            injection He as <-;
-           try (apply Forall_1 in Hg; cbv beta iota delta [fst snd] in Hg);
-           try (apply Forall_2 in Hg; cbv beta iota delta [fst snd] in Hg; destruct Hg as [Hg Hg2]);
+           try (apply Forall_1 in Hg);
+           try (apply Forall_2 in Hg; destruct Hg as [Hg Hg2]);
            destruct st as [|v1 [|v2 [|v3 s]]];
            try (exfalso; lens);
            crunch_res; leaf
        end.
 Qed.
 
-Lemma step_mid : forall t m, mid t (stk m) ->
+Lemma step_mid : forall t m, mid t (stk m) (kinds (menv m)) ->
   res_ok (PollProofs.instr o consts funcs fns obj rec code t m).
 Proof.
   intros t m (pre & j & rest & b & s' & E & Hj & Eop & Hs & Hgd). subst t.
@@ -704,7 +850,7 @@ Proof.
   destruct j as [ip0 op arg ln]. destruct m as [st en tr po].
   cbn [iip iop iarg ilen stk menv trace polls] in *. subst op st.
   vm_compute in Hl; subst ln. ev_goal. cbn [truthy]. rewrite Sj.
-  destruct b; apply RCont; left; unfold set_stk; cbn [stk]; exact Hgd.
+  destruct b; apply RCont; left; unfold set_stk; cbn [stk menv]; exact Hgd.
 Qed.
 
 End Step.
@@ -719,22 +865,22 @@ Proof.
   - rewrite PollProofs.exec_S in H. destruct (lenN code <=? ip) eqn:L.
     { injection H as <- _. discriminate. }
     apply N.leb_gt in L.
-    assert (Hstep : forall m1, stk m1 = stk m ->
+    assert (Hstep : forall m1, stk m1 = stk m -> menv m1 = menv m ->
               res_ok (ex f) (PollProofs.instr o consts funcs fns obj (ex f) code ip m1)).
-    { intros m1 Es. destruct HI as [[Hl|(pre & i & rest & d & E & Hi & Ha & Hd)]|Hm].
+    { intros m1 Es Ee. destruct HI as [[[Hl _]|(pre & i & rest & d & bs & E & Hi & Ha & Hd & Hm)]|Hm].
       - lia.
-      - subst ip. eapply step_good; eauto. rewrite Es. exact Hd.
-      - apply step_mid. rewrite Es. exact Hm. }
-    assert (Hfin : forall m1, stk m1 = stk m ->
+      - subst ip. eapply step_good; eauto; [rewrite Es; exact Hd|rewrite Ee; exact Hm].
+      - apply step_mid. rewrite Es, Ee. exact Hm. }
+    assert (Hfin : forall m1, stk m1 = stk m -> menv m1 = menv m ->
               PollProofs.instr o consts funcs fns obj (ex f) code ip m1 = (out, m') -> out <> OErr EInternal).
-    { intros m1 Es Hr. specialize (Hstep m1 Es).
+    { intros m1 Es Ee Hr. specialize (Hstep m1 Es Ee).
       inversion Hstep as [out0 m0 Hne Heq|ip' m'' Hinv Heq]; rewrite <- Heq in Hr.
       - injection Hr as <- _. exact Hne.
       - eapply IH; eassumption. }
     destruct (polls m) as [[|p]|].
     + injection H as <- _. discriminate.
-    + eapply Hfin; [|exact H]. reflexivity.
-    + eapply Hfin; [|exact H]. reflexivity.
+    + eapply Hfin; [| |exact H]; reflexivity.
+    + eapply Hfin; [| |exact H]; reflexivity.
 Qed.
 
 End Sound.
@@ -752,10 +898,10 @@ Proof.
   - cbn [chain] in Hc. destruct fuel as [|f].
     + cbn [exec] in H. unfold fail in H. injection H as <- _. discriminate.
     + rewrite PollProofs.exec_S in H. rewrite <- Hc in H. cbn in H. injection H as <- _. discriminate.
-  - eapply (sound_gen o consts funcs fns obj code is a Hc Hck Hcf); [|exact H].
+  - eapply (sound_gen o consts funcs fns obj code is a (kinds (menv m)) Hc Hck Hcf); [|exact H].
     left. right. destruct is as [|i0 is']; [congruence|].
-    exists [], i0, is', 0. cbn [chain] in Hc. destruct Hc as (H0 & _).
+    exists [], i0, is', 0, []. cbn [chain] in Hc. destruct Hc as (H0 & _).
     repeat split; auto.
-    + apply (flow_entry0 _ _ _ _ (eq_refl : entry0 [(0, 0)]) Hf).
+    + apply (flow_entry0 _ _ _ _ (eq_refl : entry0 [(0, (0, []))]) Hf).
     + lia.
 Qed.
